@@ -392,50 +392,94 @@ impl<C: Config> Engine<C> {
         Ok(false)
     }
 
-    /// Checks whether the stack of computing queries contains a cycle
-    #[allow(clippy::needless_pass_by_value)]
+    /// Checks whether `target` is reachable from `root` in the wait-for graph
+    /// of the in-flight computations, and marks every computation from which
+    /// it is reachable as being part of the strongly connected component.
+    ///
+    /// The wait-for graph may contain cycles that do not go through `target`
+    /// (a ring that has already been closed and is still unwinding keeps its
+    /// closing edge registered), so every computation is visited only once,
+    /// and no bucket of a callee table is locked while descending.
     fn check_cyclic_internal(
         &self,
-        computing: &QueryComputing,
+        root: &Arc<QueryComputing>,
         target: &QueryID,
     ) -> bool {
-        if computing.callee_info.callee_queries.contains_sync(target) {
-            computing
-                .is_in_scc
-                .store(true, std::sync::atomic::Ordering::SeqCst);
+        // breadth-first collection of the reachable in-flight computations
+        let mut nodes = vec![root.clone()];
+        let mut index = HashMap::new();
+        index.insert(Arc::as_ptr(root), 0_usize);
 
-            return true;
+        let mut edges: Vec<Vec<usize>> = vec![Vec::new()];
+        let mut reaches_target = vec![false];
+
+        let mut next = 0;
+        while next < nodes.len() {
+            let current = nodes[next].clone();
+
+            reaches_target[next] =
+                current.callee_info.callee_queries.contains_sync(target);
+
+            let mut callees = Vec::new();
+            current.callee_info.callee_queries.iter_sync(|k, _| {
+                callees.push(*k);
+                true
+            });
+
+            for callee in callees {
+                let Some(state) = self
+                    .computation_graph
+                    .computing
+                    .try_get_query_computing(&callee)
+                else {
+                    continue;
+                };
+
+                let callee_index =
+                    *index.entry(Arc::as_ptr(&state)).or_insert_with(|| {
+                        nodes.push(state.clone());
+                        edges.push(Vec::new());
+                        reaches_target.push(false);
+
+                        nodes.len() - 1
+                    });
+
+                edges[next].push(callee_index);
+            }
+
+            next += 1;
         }
 
-        let mut found = false;
+        // propagate "reaches the target" backwards until nothing changes
+        let mut changed = true;
+        while changed {
+            changed = false;
 
-        // OPTIMIZE: this can be parallelized
-        computing.callee_info.callee_queries.iter_sync(|k, _| {
-            let Some(state) =
-                self.computation_graph.computing.try_get_query_computing(k)
-            else {
-                return true;
-            };
-
-            found |= self.check_cyclic_internal(&state, target);
-
-            true
-        });
-
-        if found {
-            computing
-                .is_in_scc
-                .store(true, std::sync::atomic::Ordering::SeqCst);
+            for i in 0..nodes.len() {
+                if !reaches_target[i]
+                    && edges[i].iter().any(|callee| reaches_target[*callee])
+                {
+                    reaches_target[i] = true;
+                    changed = true;
+                }
+            }
         }
 
-        found
+        for (node, reaches) in nodes.iter().zip(&reaches_target) {
+            if *reaches {
+                node.is_in_scc
+                    .store(true, std::sync::atomic::Ordering::SeqCst);
+            }
+        }
+
+        reaches_target[0]
     }
 
     /// Checks whether the stack of computing queries contains a cycle
     #[allow(clippy::needless_pass_by_value)]
     pub(super) fn check_cyclic(
         &self,
-        running_state: &QueryComputing,
+        running_state: &Arc<QueryComputing>,
         target: &QueryID,
     ) -> bool {
         self.check_cyclic_internal(running_state, target)
